@@ -7,7 +7,11 @@ use crate::props::hist::{gate, Gate};
 use crate::refmodel::build;
 use proptest::prelude::*;
 
-pub fn check(_sub: &str, cfg: &'static dyn Config, input: &Input, rec: &mut Rec) -> Verdict {
+pub fn check(sub: &str, cfg: &'static dyn Config, input: &Input, rec: &mut Rec) -> Verdict {
+    if sub.contains("continuation-shapes") {
+        // replay of a case saved by that sub-check
+        return check_continuation(sub, cfg, input, rec);
+    }
     let lines = match input {
         Input::History { lines } => lines,
         _ => crate::engine::infra_error("C08 expects a history"),
@@ -67,6 +71,91 @@ pub fn check(_sub: &str, cfg: &'static dyn Config, input: &Input, rec: &mut Rec)
         rec.note = Some(notes.join(" | "));
     }
     Verdict::Pass
+}
+
+/// the last line is a candidate continuation; the lines before it are the well-formed earlier
+/// fragments of its group (sent without decoding). The shape rule is the same for a
+/// continuation as for a first fragment: a malformed line or one with a wrong checksum is
+/// rejected, and the untouched shape with the expected numbering is accepted.
+pub fn check_continuation(_sub: &str, cfg: &'static dyn Config, input: &Input, rec: &mut Rec) -> Verdict {
+    let lines = match input {
+        Input::History { lines } if lines.len() >= 2 => lines,
+        _ => crate::engine::infra_error("C08 continuation expects a history of at least two lines"),
+    };
+    let (prefix, last) = lines.split_at(lines.len() - 1);
+    let l = &last[0];
+    let total: usize = lines.iter().map(|x| x.bytes.len()).sum();
+    if cfg.name() == "none" && total > 384 {
+        return Verdict::Excluded("longer than the no-allocator payload capacity");
+    }
+    let mut p = cfg.new_parser();
+    let mut open = None;
+    for (i, pl) in prefix.iter().enumerate() {
+        let out = p.parse(&pl.bytes, false);
+        rec.evals += 1;
+        if !out.is_ok() {
+            return Verdict::fail(format!("set-up line {} (fragment {} of a well-formed group) is accepted", i, i + 1), out.brief());
+        }
+        if let Gate::Pass(f) = gate(&pl.bytes) {
+            open = Some((f.num_fragments, f.fragment_number, f.message_id));
+        }
+    }
+    let out = p.parse(&l.bytes, l.decode);
+    rec.evals += 1;
+    if let crate::outcome::Outcome::Panic(m) = &out {
+        return Verdict::fail("the continuation candidate gives a result or an error value".to_string(), format!("panic: {}", m));
+    }
+    let i = lines.len() - 1;
+    match gate(&l.bytes) {
+        Gate::Malformed(why) => {
+            rec.class("continuation-malformed");
+            rec.nontrivial = true;
+            if !out.is_err() {
+                return Verdict::fail(format!("line {} (continuation of an open group): an error ({})", i, why), out.brief());
+            }
+        }
+        Gate::BadChecksum(_) => {
+            rec.class("continuation-bad-checksum");
+            rec.nontrivial = true;
+            if !out.is_err() {
+                return Verdict::fail(format!("line {} (continuation of an open group): an error (checksum does not match)", i), out.brief());
+            }
+        }
+        Gate::StarInField(_) => {
+            rec.class("star-in-field(excluded)");
+            return Verdict::Excluded("'*' inside a field");
+        }
+        Gate::Pass(f) => {
+            rec.nontrivial = true;
+            let continues = match open {
+                Some((n, k, id)) => f.num_fragments == n && f.fragment_number == k.wrapping_add(1) && f.message_id == id && k < n,
+                None => false,
+            };
+            if f.empty_tag {
+                rec.class("empty-tag-block(not pinned)");
+            } else if continues && !l.decode {
+                rec.class("continuation-wellformed-accepted");
+                if !out.is_ok() {
+                    return Verdict::fail(format!("line {}: accepted (well-formed, checksum matches, fragment {} of {} directly continuing the open group)", i, f.fragment_number, f.num_fragments), out.brief());
+                }
+            } else {
+                rec.class("continuation-wellformed-other-numbering");
+            }
+        }
+    }
+    if rec.want_note {
+        rec.note = Some(format!("after {} set-up line(s): {:?} -> {}", prefix.len(), crate::util::clip(&crate::util::esc(&l.bytes), 100), crate::util::clip(&out.brief(), 100)));
+    }
+    Verdict::Pass
+}
+
+/// (earlier fragments, continuation) pairs whose continuation is mutated at every position
+fn continuation_pool() -> Vec<(Vec<Vec<u8>>, Vec<u8>)> {
+    vec![
+        (vec![build::line(2, 1, Some(1), b"B", b"55?MbV02>H97ac<H", 0)], build::line(2, 2, Some(1), b"B", b"4eEp6000000", 2)),
+        (vec![build::line(3, 1, None, b"A", b"8h", 0), build::line(3, 2, None, b"A", b"0w", 0)], build::line(3, 3, None, b"A", b"P", 4)),
+        (vec![build::line(9, 1, Some(0), b"", b"1", 0)], build::line(9, 2, Some(0), b"", b"5", 0)),
+    ]
 }
 
 const MUT_BYTES: [u8; 18] = [b',', b'*', b'!', b'$', b'\\', b'0', b'9', b'5', b'A', b'a', b'G', b'g', b' ', b'\r', b'\n', 0x00, 0xff, b'-'];
@@ -214,7 +303,7 @@ fn near_misses() -> Vec<Vec<u8>> {
 }
 
 pub fn run(ctx: &mut Ctx) {
-    ctx.rule = "differential against a hand-written recogniser of the stated shape, each line on a fresh parser: (i) every single-point mutation (delete; insert one of 18 significant bytes; replace with every one of the 255 other byte values; at every position) of six valid sentences, each with the checksum left alone and re-fixed; (ii) ~60 field-level near misses (count 256, fill 6, empty payload, checksum 100 / 0XX / nine digits / lower case, tag-block damage, leading garbage, CR LF ...); (iii) generated well-formed sentences and random byte strings. Recogniser rejects => the parser returns an error; recogniser accepts with numbering 1-of-1 or 1-of-n => Ok. Non-trivial = a line within edit distance 1 of an accepted line, an accepted line, or a malformed line; distinct by the bytes.".into();
+    ctx.rule = "differential against a hand-written recogniser of the stated shape, each line on a fresh parser: (i) every single-point mutation (delete; insert one of 18 significant bytes; replace with every one of the 255 other byte values; at every position) of six valid sentences, each with the checksum left alone and re-fixed; (ii) ~60 field-level near misses (count 256, fill 6, empty payload, checksum 100 / 0XX / nine digits / lower case, tag-block damage, leading garbage, CR LF ...); (iii) generated well-formed sentences and random byte strings; (iv) every single-point mutation of three continuation fragments, judged on a parser holding the earlier fragments of the group (a malformed or wrongly checksummed continuation is an error; the untouched one is accepted). Recogniser rejects => the parser returns an error; recogniser accepts with numbering 1-of-1 or 1-of-n => Ok. Non-trivial = a line within edit distance 1 of an accepted line, an accepted line, or a malformed line; distinct by the bytes.".into();
     ctx.assumptions = vec![
         "lines whose fields contain '*' are excluded (two readings of the statement, see DESIGN.md C02)".into(),
         "an empty tag block '\\\\' is not pinned either way".into(),
@@ -230,6 +319,25 @@ pub fn run(ctx: &mut Ctx) {
         }
     }
     ctx.mark_exhaustive("single-point-mutations", "every deletion, every insertion of 18 significant byte values and every replacement by all 255 other byte values at every position of 6 valid sentences, with and without re-fixing the checksum");
+    // the same shape rules hold for a continuation fragment arriving on an open group
+    for (cfgi, cfg) in configs().into_iter().enumerate() {
+        for (prefix, base) in continuation_pool() {
+            let cands: Vec<Vec<u8>> = std::iter::once(base.clone()).chain(mutations(&base)).collect();
+            for (j, m) in cands.into_iter().enumerate() {
+                if ctx.sub_failed("continuation-shapes") {
+                    break;
+                }
+                // the other two builds see every seventh mutation (the sentence level is shared code)
+                if cfgi > 0 && j % 7 != 0 {
+                    continue;
+                }
+                let mut lines: Vec<Line> = prefix.iter().map(|b| Line::new(b.clone(), false)).collect();
+                lines.push(Line::new(m, false));
+                ctx.sweep_case("continuation-shapes", cfg, &Input::History { lines }, check_continuation);
+            }
+        }
+    }
+    ctx.mark_exhaustive("continuation-shapes", "every single-point mutation (as above) of three continuation fragments (2 of 2, 3 of 3, 2 of 9), each judged on a parser that holds the earlier fragments of its group");
     for m in near_misses() {
         for decode in [false, true] {
             ctx.sweep_case("near-misses", &STD, &Input::History { lines: vec![Line::new(m.clone(), decode)] }, check);
